@@ -23,9 +23,11 @@ func vrtHarness_C09_tdc() {
 	defer cancel()
 
 	refused, finished, failed := 0, 0, 0
+	start := make(chan struct{}) // the callers reserve at the same moment (natively: released together)
 	for i := 0; i < k; i++ {
 		i := i
 		go func() {
+			<-start
 			ex, _ := dc.ReserveNewQuery()
 			if ex == nil {
 				vrtAtomic(func() { refused++ })
@@ -40,6 +42,8 @@ func vrtHarness_C09_tdc() {
 			})
 		}()
 	}
+	vrtWaitQuiescent()
+	close(start)
 	vrtWaitQuiescent() // every caller is refused or waits for its reply
 	admitted := len(conn.frames)
 	want := k
